@@ -22,6 +22,7 @@ type caseSpec struct {
 	Pages     int    `json:"pages,omitempty"`
 	After     int    `json:"after,omitempty"` // fault conn: bytes let through before the fault
 	RT        int    `json:"rt_ms,omitempty"`
+	CT        int    `json:"ct_ms,omitempty"` // public-wiring timeout cases: CqlClient.ConnectTimeout (server: AcceptTimeout)
 	Receivers bool   `json:"receivers,omitempty"`
 	Handlers  bool   `json:"handlers,omitempty"`
 	// concurrent cases
@@ -285,6 +286,18 @@ func buildCases(seed int64, thorough bool) []caseSpec {
 			for _, T := range []int{200, 300} {
 				add(caseSpec{Class: "timeout", Name: name, Setup: "shim", RT: T, Pages: 1})
 			}
+		}
+		// ---- timeouts through the public constructors, ReadTimeout != ConnectTimeout in both directions
+		for _, pc := range []struct {
+			name   string
+			rt, ct int
+		}{
+			{"public/read-short", 300, 10000}, {"public/read-short-ConnectAndInit", 300, 5000},
+			{"public/read-long", 3000, 200}, {"public/read-long-ConnectAndInit", 3000, 250},
+			{"public/read-long-pages", 3000, 200},
+			{"public/server-idle", 3000, 200}, {"public/server-idle", 300, 10000},
+		} {
+			add(caseSpec{Class: "timeout", Name: pc.name, Setup: "public", RT: pc.rt, CT: pc.ct})
 		}
 		// ---- concurrent: close under load
 		// quick: 200 concurrent cases; thorough: 200 x 5 perturbation seeds in 2 of the 10 rounds (10 x the quick tier)
